@@ -724,8 +724,16 @@ def gen_constraints(rng, cls, ys, lo, hi, light_c=False, allow_f8=True):
     y_min, y_max = (anc[0], anc[1]) if anc else (0.0, 1.0)
     span = max(y_max - y_min, 1e-3 * max(1.0, abs(y_max)))
     cons = {}
-    ka = rng.choice(["absent", "absent", "absent", "fixed_below", "fixed_at", "int_around", "int_at", "int_half", "fixed_above"])
-    if ka == "fixed_below":
+    ka = rng.choice(["absent", "absent", "absent", "fixed_below", "fixed_at", "int_around", "int_at", "int_half", "fixed_above",
+                     "fixed_just_above", "int_just_above"])
+    # "just above / below": inside the rounding of the data's own dtype (a float32 sample is compared as the doubles it equals), so the
+    # constraint is infeasible by less than the spacing of the sample's dtype and by more than the spacing of a double
+    tiny = lambda v: max(abs(v), 1e-300) * 10.0 ** rng.uniform(-13.0, -8.5)       # noqa: E731
+    if ka == "fixed_just_above":
+        cons["a"] = ["f", hx(y_min + tiny(y_min))]
+    elif ka == "int_just_above":
+        cons["a"] = ["i", hx(y_min + tiny(y_min)), hx(y_min + span)]
+    elif ka == "fixed_below":
         cons["a"] = ["f", hx(y_min - rng.choice([0.1, 0.5, 2.0]) * span)]
     elif ka == "fixed_at":
         cons["a"] = ["f", hx(y_min)]
@@ -737,8 +745,13 @@ def gen_constraints(rng, cls, ys, lo, hi, light_c=False, allow_f8=True):
         cons["a"] = ["i", hx(y_min), hx(y_min + span)]
     elif ka == "int_half":
         cons["a"] = ["i", hx(-INF), hx(y_min - 0.1 * span)]
-    kb = rng.choice(["absent", "absent", "absent", "fixed_above", "fixed_at", "int_around", "int_at", "int_half", "fixed_below"])
-    if kb == "fixed_above":
+    kb = rng.choice(["absent", "absent", "absent", "fixed_above", "fixed_at", "int_around", "int_at", "int_half", "fixed_below",
+                     "fixed_just_below", "int_just_below"])
+    if kb == "fixed_just_below":
+        cons["b"] = ["f", hx(y_max - tiny(y_max))]
+    elif kb == "int_just_below":
+        cons["b"] = ["i", hx(y_max - span), hx(y_max - tiny(y_max))]
+    elif kb == "fixed_above":
         cons["b"] = ["f", hx(y_max + rng.choice([0.1, 0.5, 2.0]) * span)]
     elif kb == "fixed_at":
         cons["b"] = ["f", hx(y_max)]
